@@ -68,3 +68,36 @@ func H_C19_multi() {
 	m.ClearLoaders()
 	vfAssert(!m.Exists("/t.jet"), "cleared stack has nothing")
 }
+
+// H_C19_multiShared: two Multi loaders built from the same slice of loaders; one of them
+// is cleared and refilled (symbolic sequence of ClearLoaders / AddLoaders): the other keeps
+// answering from its own loaders in construction order.
+//
+//gosym:reach checked
+func H_C19_multiShared() {
+	a := &stubLoader{has: true, content: "a"}
+	b := &stubLoader{has: true, content: "b"}
+	c := &stubLoader{has: true, content: "c"}
+	stack := []jet.Loader{a, b}
+	m1 := NewLoader(stack...)
+	m2 := NewLoader(stack...)
+	steps := ndChoice("steps", 3)
+	for k := 0; k <= steps; k++ {
+		switch ndChoice("op"+ndItoa(k), 3) {
+		case 0:
+			m1.ClearLoaders()
+		case 1:
+			m1.AddLoaders(c)
+		default:
+			m1.AddLoaders(c, b)
+		}
+	}
+	vfReach("checked")
+	f, err := m2.Open("/t.jet")
+	vfAssert(err == nil, "the untouched stack still finds the file")
+	if err == nil {
+		data, _ := ioutil.ReadAll(f)
+		vfAssert(string(data) == "a", "the untouched stack still answers from its own first loader")
+	}
+	vfAssert(len(stack) == 2 && stack[0] == jet.Loader(a) && stack[1] == jet.Loader(b), "the caller's slice is not modified")
+}
